@@ -163,6 +163,12 @@ def run_partA(kinds, answer, delivery):
         if delivery == 'deferred':
             # the attacher makes up its mind only now, after another event went by
             impl.event('CIRC', M.circ_line(1, 'BUILT', 3))
+            # ... and Tor said more about the waiting streams themselves (address remapped from its cache, still unattached)
+            for sid_, kind_ in zip(sids, kinds):
+                if kind_ in ('host', 'exit-inside', 'ip'):
+                    impl.sim.event('STREAM %d REMAP 0 93.184.216.34:80 SOURCE=CACHE' % sid_)
+                    impl.sim.event('STREAM %d CONTROLLER_WAIT 0 93.184.216.34:80' % sid_)
+            impl.sim.pump()
             if answer == 'fresh':
                 build_circuit(impl, 2, 'BUILT')
             att.fire_pending()
@@ -433,6 +439,10 @@ def run_partB(order, variant):
                     impl.sim.event('STREAM 19 NEW 0 unrelated.example:80 SOURCE_ADDR=192.168.1.9:%d PURPOSE=USER' % ports[1])
                 else:
                     impl.sim.event('STREAM 19 NEW 0 unrelated.example:80 SOURCE_ADDR=127.0.0.1:50000 PURPOSE=USER')
+            elif kind == 'L':
+                # the SOCKS connection of connection k dies before Tor ever announced a stream for it
+                if eps[k].wire is not None and eps[k].wire.lost_seq is None:
+                    eps[k].wire.lose()
             elif kind == 'X':
                 impl.event('CIRC', M.circ_line(1, 'CLOSED', 3, 'REASON=DESTROYED'))
             elif kind == 'B':
@@ -440,19 +450,23 @@ def run_partB(order, variant):
             impl.sim.pump()
         impl.sim.pump()
         # later, an unrelated client connection re-uses the local address and port connection 1 had
-        if 'N1' in order:
+        if 'N1' in order or variant == 'abandoned':
             log.append('R (source port of connection 1 re-used by an unrelated stream)')
             impl.sim.event('STREAM 21 NEW 0 later.example:80 SOURCE_ADDR=127.0.0.1:%d PURPOSE=USER' % ports[1])
             impl.sim.pump()
         attach = [c for c in impl.sim.commands if c.startswith('ATTACHSTREAM')]
         reuse = [c for c in attach if c.split()[1] == '21']
-        if 'N1' in order and reuse != ['ATTACHSTREAM 21 0']:
+        if ('N1' in order or variant == 'abandoned') and reuse != ['ATTACHSTREAM 21 0']:
             viol.append(('unrelated-stream', 'source-port-reused-later/' + ('captured' if any(c.split()[2] != '0' for c in reuse) else 'no-decision'),
                          'order %r: a later stream from 127.0.0.1:%d got decisions %r' % (order, ports[1], reuse)))
         closed1 = 'X' in order
         for k in (1, 2):
             mine = [c for c in attach if c.split()[1] == str(sid[k])]
             other = 2 if k == 1 else 1
+            if variant == 'abandoned' and k == 1:
+                if len(recs[1].fires) != 1 or recs[1].kind != 'err':
+                    viol.append(('connect-outcome', 'socks-connection-lost-before-stream', 'connect() 1: %r' % (recs[1].summary(),)))
+                continue
             if any(c.split()[2] == str(other) for c in mine):
                 viol.append(('attached-to-other-circuit', 'conn-%d' % k, 'stream %d of connection %d: %r' % (sid[k], k, mine)))
             died_first = closed1 and k == 1 and order.index('X') < order.index('N1')
@@ -461,6 +475,10 @@ def run_partB(order, variant):
             if died_first:
                 if any(c.split()[2] == '1' for c in mine):
                     viol.append(('attached-to-dead-circuit', 'conn-1', '%r' % (mine,)))
+                elif mine:
+                    # "exactly that circuit": when it is gone the stream must not be handed to Tor to put on any other circuit
+                    viol.append(('via-circuit-stream-released-to-any-circuit', 'circuit-died-first',
+                                 'order %r: circuit 1 closed before stream %d appeared; the client sent %r' % (order, sid[1], mine)))
                 if len(recs[1].fires) != 1 or recs[1].kind != 'err':
                     viol.append(('connect-outcome', 'circuit-died-first', 'connect() 1: %r' % (recs[1].summary(),)))
                 continue
@@ -484,7 +502,7 @@ def run_partB(order, variant):
 
 
 def orders_for(variant, tier):
-    c1 = ('T1', 'M1', 'N1', 'S1')
+    c1 = ('T1', 'M1', 'N1', 'S1') if variant != 'abandoned' else ('T1', 'M1', 'L1')
     c2 = ('T2', 'M2', 'N2', 'S2')
     extra = [('U',)]
     if variant == 'closing':
@@ -514,7 +532,7 @@ def tasks(tier, seed):
             out.append(('A', ans, dl))
     out.append(('book',))
     out.append(('prio',))
-    for variant in ('plain', 'same-host', 'same-port-other-host', 'late-setconf-ack', 'building', 'closing'):
+    for variant in ('plain', 'same-host', 'same-port-other-host', 'late-setconf-ack', 'building', 'closing', 'abandoned'):
         n = len(orders_for(variant, tier))
         per = 400
         for i in range(0, n, per):
